@@ -22,8 +22,8 @@ ExtOnly == {"acute", "tone"}            \* Grapheme_Extend (combining acute, emo
 ExtZ    == ExtOnly \cup {"zwj"}
 Pict    == {"wave"}                     \* Extended_Pictographic
 Spaces  == {" ", "LF", "CR", "TAB"}
-Lowers  == <<"a", "b", "c", "d", "e", "f", "h", "m", "n", "s", "t", "u", "x", "z">>
-Uppers  == <<"A", "B", "C", "D", "E", "F", "H", "M", "N", "S", "T", "U", "X", "Z">>
+Lowers  == <<"a", "b", "c", "d", "e", "f", "g", "h", "m", "n", "o", "q", "s", "t", "u", "v", "x", "z">>
+Uppers  == <<"A", "B", "C", "D", "E", "F", "G", "H", "M", "N", "O", "Q", "S", "T", "U", "V", "X", "Z">>
 IdxIn(c, S) == IF \E i \in 1..Len(S) : S[i] = c THEN CHOOSE i \in 1..Len(S) : S[i] = c ELSE 0
 UpperC(c) == IF IdxIn(c, Lowers) > 0 THEN Uppers[IdxIn(c, Lowers)] ELSE c
 LowerC(c) == IF IdxIn(c, Uppers) > 0 THEN Lowers[IdxIn(c, Uppers)] ELSE c
@@ -89,9 +89,12 @@ CharSet(s) == {s[i] : i \in 1..Len(s)}
 PlainQ(n) == Has(n, "q") /\ AbsI(n.q) < 4000000
 \* exact decimal text of named numbers that need more than 53 bits (they print in full, below the 10^21 switch to exponents)
 LmText == [f64intp |-> <<"9", "0", "0", "7", "1", "9", "9", "2", "5", "4", "7", "4", "0", "9", "9", "3">>, u64max |-> <<"1", "8", "4", "4", "6", "7", "4", "4", "0", "7", "3", "7", "0", "9", "5", "5", "1", "6", "1", "5">>, i64max |-> <<"9", "2", "2", "3", "3", "7", "2", "0", "3", "6", "8", "5", "4", "7", "7", "5", "8", "0", "7">>, almost1 |-> <<"0", ".", "9", "9", "9", "9", "9", "9", "9", "9", "9", "9", "9", "9", "9", "9", "9", "9", "9", "9", "9", "9">>, malmost3 |-> <<"-", "2", ".", "9", "9", "9", "9", "9", "9", "9", "9", "9", "9", "9", "9", "9", "9", "9", "9", "9", "9", "9", "9">>, u64maxpp |-> <<"1", "8", "4", "4", "6", "7", "4", "4", "0", "7", "3", "7", "0", "9", "5", "5", "1", "6", "1", "7">>]
+\* the same numbers as %v prints them (the general format switches to an exponent from 10^6 on and keeps every digit)
+LmTextG == [f64intp |-> <<"9", ".", "0", "0", "7", "1", "9", "9", "2", "5", "4", "7", "4", "0", "9", "9", "3", "e", "+", "1", "5">>, u64max |-> <<"1", ".", "8", "4", "4", "6", "7", "4", "4", "0", "7", "3", "7", "0", "9", "5", "5", "1", "6", "1", "5", "e", "+", "1", "9">>, i64max |-> <<"9", ".", "2", "2", "3", "3", "7", "2", "0", "3", "6", "8", "5", "4", "7", "7", "5", "8", "0", "7", "e", "+", "1", "8">>, almost1 |-> <<"0", ".", "9", "9", "9", "9", "9", "9", "9", "9", "9", "9", "9", "9", "9", "9", "9", "9", "9", "9", "9", "9">>, malmost3 |-> <<"-", "2", ".", "9", "9", "9", "9", "9", "9", "9", "9", "9", "9", "9", "9", "9", "9", "9", "9", "9", "9", "9", "9">>, u64maxpp |-> <<"1", ".", "8", "4", "4", "6", "7", "4", "4", "0", "7", "3", "7", "0", "9", "5", "5", "1", "6", "1", "7", "e", "+", "1", "9">>]
+NumTextG(n) == IF Has(n, "q") THEN QText(n.q) ELSE LmTextG[n.lm]
 NumTextable(n) == PlainQ(n) \/ (Has(n, "lm") /\ n.lm \in DOMAIN LmText)
 NumText(n) == IF Has(n, "q") THEN QText(n.q) ELSE LmText[n.lm]
-LetterVals == <<10, 11, 12, 13, 14, 15, 17, 22, 23, 28, 29, 30, 33, 35>>       \* digit values of Lowers in bases up to 36
+LetterVals == <<10, 11, 12, 13, 14, 15, 16, 17, 22, 23, 24, 26, 28, 29, 30, 31, 33, 35>>       \* digit values of Lowers in bases up to 36
 DigitVal(c) == IF IsDigitC(c) THEN IdxIn(c, Digits) - 1
                ELSE IF IdxIn(LowerC(c), Lowers) > 0 THEN LetterVals[IdxIn(LowerC(c), Lowers)] ELSE 99
 RECURSIVE DigitsVal(_, _, _)
@@ -160,7 +163,7 @@ FmtVerb(vb, arg) ==
   ELSE CASE vb.mode = "v" ->
               IF "#" \in vb.fl THEN (IF JTextable(arg) THEN OKV(PadTo(vb, JText(arg))) ELSE UNDEF)
               ELSE IF arg.ty.k = "string" THEN OKV(PadTo(vb, StrOf(arg)))
-              ELSE IF arg.ty.k = "number" THEN (IF NumTextable(arg.v) THEN OKV(PadTo(vb, NumText(arg.v))) ELSE UNDEF)
+              ELSE IF arg.ty.k = "number" THEN (IF NumTextable(arg.v) THEN OKV(PadTo(vb, NumTextG(arg.v))) ELSE UNDEF)
               ELSE IF JTextable(arg) THEN OKV(PadTo(vb, JText(arg))) ELSE UNDEF
          [] vb.mode = "t" ->
               IF arg.ty.k = "bool" THEN OKV(IF BoolOf(arg) THEN <<"t", "r", "u", "e">> ELSE <<"f", "a", "l", "s", "e">>)
